@@ -489,9 +489,23 @@ fn mk(id: &'static str, rule: &'static str, assumptions: &'static [&'static str]
         level: "exploration",
         rule,
         assumptions,
-        modes: |t| vec![("main", t.pick(8, 14))],
-        run: |ctx, mode| by_id(&ctx.id).run(ctx, mode),
-        replay: |ctx, v| by_id(&ctx.id).replay(ctx, v),
+        modes: |t| {
+            vec![("main", t.pick(8, 14))]
+        },
+        run: |ctx, mode| {
+            if mode == "main" {
+                by_id(&ctx.id).run(ctx, mode)
+            } else {
+                super::c06::run_other(ctx, mode)
+            }
+        },
+        replay: |ctx, v| {
+            if v.get("tsjob").is_some() || v.get("choices").is_some() {
+                super::c06::replay_ts(ctx, v)
+            } else {
+                by_id(&ctx.id).replay(ctx, v)
+            }
+        },
     }
 }
 
@@ -517,6 +531,18 @@ const COMMON: &[&str] = &[
 ];
 
 pub fn defs() -> Vec<CheckDef> {
+    let mut v = defs0();
+    for d in v.iter_mut() {
+        match d.id {
+            "C07" => d.modes = |t| vec![("main", t.pick(8, 12)), ("fold_ts", t.pick(2, 4))],
+            "C08" => d.modes = |t| vec![("main", t.pick(8, 12)), ("interval", t.pick(3, 4))],
+            _ => {}
+        }
+    }
+    v
+}
+
+fn defs0() -> Vec<CheckDef> {
     vec![
         mk("C02", "random jobs biased to repartitioning, small batches and padded (up to 70 kB) elements, 2-3 deployments each; observer hook records every batch at NetworkSender::send and matches every received batch against the head of its link's queue (kinds, timestamps, element digests), all queues empty at the end; stamped sequence numbers arrive in order and on one consumer only; non-trivial = some link carried >= 3 batches; distinct = hash of (job, configuration)", COMMON, c02),
         mk("C03", "random jobs dense in repartitioning (forward incl. narrowing, group_by, repartition_by into Limited/Host/One blocks, shuffle, broadcast, route, split with several downstream blocks, hash- and broadcast-shipped joins), replica counts equal/coprime/1/heterogeneous; every element is stamped by the last operator of its block and traced, through the send hook, to the endpoints it was enqueued to; oracle per downstream block: forward = one endpoint, the same-index replica when it exists; group-by = one endpoint, a function of the key alone across all producers and both join inputs; shuffle = one; broadcast = every replica once; route = exactly one replica of the first matching route's block, nothing for unmatched elements; every FlushAndRestart and Terminate a producer emits is sent to every connected endpoint; non-trivial = a group-by edge with >= 2 keys and >= 2 consumer replicas, or a producer with >= 2 downstream blocks", COMMON, c03),
